@@ -90,7 +90,7 @@ def named_registers(prog) -> set:
 VARS = ["R0", "R1", "R2", "R3", "M0", "Q0", "C0"]
 MORE_R = [f"R{i}" for i in range(4, 16)]
 ADDRS = [0, 1, 2, 5]
-LABEL_NAMES = ["L", "LOOP", "EXIT", "skip", "end_1", "A", "B2", "Lx", "again", "out"]
+LABEL_NAMES = ["L", "LOOP", "EXIT", "skip", "end_1", "A", "B2", "Lx", "again", "out", "Q0_done", "M0_loop", "R2D", "C3po", "Rx", "Mloop"]
 
 
 @st.composite
@@ -187,10 +187,19 @@ def st_program(draw, max_blocks=6):
         lo = draw(st.integers(0, 2))
         return [draw(st.sampled_from(["wait_all", "wait_any"])), [{"addr": a, "start": lo if draw(st.integers(0, 1)) else "C0", "stop": lo + draw(st.integers(1, 2))}]]
 
+    recent: List[Any] = []
+
     def block(depth):
         out = []
         for _ in range(draw(st.integers(0, 4))):
-            out.append(simple_instr())
+            if recent and draw(st.integers(0, 4)) == 0:
+                # the same instruction again (recurring updates such as `add R0 R0 1`)
+                out.append(copy.deepcopy(draw(st.sampled_from(recent))))
+            else:
+                ins = simple_instr()
+                out.append(ins)
+                if ins[0] in ("add", "sub", "addm", "subm", "store", "qalloc", "qfree"):
+                    recent.append(ins)
         return out
 
     def cond():
@@ -385,6 +394,8 @@ def lower_ir(case):
 
     cmds = []
     sty = Style(list(reversed(case["style"])))
+    share_lists = sty.next(3) == 0  # structurally equal commands may be built from one operand list object
+    shared: Dict[str, list] = {}
     for ins in case["prog"]:
         if ins[0] == "label":
             cmds.append(BranchLabel(ins[1]))
@@ -398,7 +409,18 @@ def lower_ir(case):
                     break
             k = (1 + sty.next(nlead)) if nlead and sty.next(3) == 0 else 0
             # leading literals may be given as ICmd.args (what the text form `instr(a,b) ...` produces)
-            cmds.append(ICmd(instruction=string_to_instruction(mn), args=[o for o in ops[:k]], operands=[conv(o) for o in ops[k:]]))
+            operands = [conv(o) for o in ops[k:]]
+            if share_lists and k == 0 and not any(isinstance(o, dict) and "label" not in o for o in ops):
+                # (only flat operand lists: array entries are mutable operand objects that a caller must not share)
+                key = repr(ins)
+                operands = shared.setdefault(key, operands)
+            cmds.append(ICmd(instruction=string_to_instruction(mn), args=[o for o in ops[:k]], operands=operands))
+    if sty.next(3) == 0:
+        # built incrementally, as a program generator would
+        proto = ProtoSubroutine(netqasm_version=(0, 0), app_id=0)
+        for c in cmds:
+            proto.commands.append(c)
+        return proto
     return ProtoSubroutine(commands=cmds, netqasm_version=(0, 0), app_id=0)
 
 
